@@ -157,3 +157,73 @@ func Harness_C07_histories() {
 	}
 	verif_Cover("C07.done")
 }
+
+// c07Stream is a transport double that only records whether it was closed.
+type c07Stream struct {
+	stream.PackageStreamer
+	closed bool
+}
+
+func (s *c07Stream) Close() { s.closed = true }
+
+// Concurrent executions: two registry operations - the stale sweep, a (late or repeated)
+// handshake, a disconnect, a kick, a re-registration - run at the same time over two connections,
+// with the registry's lock operations as scheduling points. Afterwards a lookup by client id still
+// returns nothing or a registered, authenticated connection of exactly that client whose transport
+// is open, and the counts agree.
+func Harness_C07_registry_races() {
+	now := int64(1) << 60
+	verif_ClockSet(now)
+	reg := NewClientRegistry(&ClientRegistryConfig{})
+	s0, s1 := &c07Stream{}, &c07Stream{}
+	c0 := NewControlConnection("c0", s0, nil, "tcp")
+	c1 := NewControlConnection("c1", s1, nil, "tcp")
+	verif_Assert("C07.race.setup.reg", reg.Register(c0) == nil && reg.Register(c1) == nil)
+	if verif_Bool() {
+		verif_Assert("C07.race.setup.auth", reg.UpdateAuth("c1", 1001, "") == nil)
+	}
+	now += 100 * int64(time.Second) // both connections have been idle past the heartbeat timeout
+	verif_ClockSet(now)
+	if verif_Bool() {
+		c1.UpdateActivity()
+	}
+	timeout := 60 * time.Second
+	conns := []string{"c0", "c1"}
+	clients := []int64{1001, 1002}
+	op := func() func() {
+		switch verif_Choose(5) {
+		case 0:
+			return func() { reg.CleanupStale(timeout, nil) }
+		case 1:
+			id, cl := conns[verif_Choose(2)], clients[verif_Choose(2)]
+			return func() { reg.UpdateAuth(id, cl, "") }
+		case 2:
+			id := conns[verif_Choose(2)]
+			return func() { reg.Remove(id) }
+		case 3:
+			cl, id := clients[verif_Choose(2)], conns[verif_Choose(2)]
+			return func() { reg.KickOldConnection(cl, id, nil) }
+		default:
+			id := conns[verif_Choose(2)]
+			return func() { reg.Register(NewControlConnection(id, &c07Stream{}, nil, "tcp")) }
+		}
+	}
+	a, b := op(), op()
+	verif_Spawn(a)
+	verif_Spawn(b)
+	verif_Quiesce()
+	for _, id := range clients {
+		cc := reg.GetByClientID(id)
+		if cc == nil {
+			continue
+		}
+		verif_Assert("C07.race.lookup.belongs", cc.Authenticated && cc.ClientID == id)
+		verif_Assert("C07.race.lookup.registered", reg.GetByConnID(cc.ConnID) == cc)
+		if st, ok := cc.Stream.(*c07Stream); ok {
+			verif_Assert("C07.race.lookup.live", !st.closed)
+		}
+		verif_Cover("C07.race.lookup_found")
+	}
+	verif_Assert("C07.race.counts", reg.Count() == len(reg.List()))
+	verif_Cover("C07.race.done")
+}
